@@ -54,6 +54,7 @@ func init() {
 			{ID: "C08-R29", Title: "converted errors are values", Floor: 1, Run: convertedErrorsAreValues},
 			{ID: "C08-R30", Title: "entries made on the way are withdrawn with their cause (shared with C05-R14)", Floor: 2, Run: entriesMadeOnTheWayAreWithdrawnWithTheirCause},
 			{ID: "C08-R31", Title: "map lookups use the map's own keys", Floor: 1, Run: mapLookupsUseTheMapsOwnKeys},
+			{ID: "C08-R32", Title: "Go values of script objects are not silently nil", Floor: 1, Run: goValuesOfScriptObjectsAreNotSilentlyNil},
 		},
 	})
 }
